@@ -160,8 +160,12 @@ func TestWorker(t *testing.T) {
 			fmt.Println("HARNESS-ERROR", err)
 			os.Exit(2)
 		}
-		eng := Lookup(c.Prop).Engine
-		out := safeRun(eng, c, dir)
+		var out *Outcome
+		if c.Engine == "golden" {
+			out = goldenCheck(dir)
+		} else {
+			out = safeRun(Lookup(c.Prop).Engine, c, dir)
+		}
 		res.Runs, res.Evals = 1, out.Evals
 		if out.HarnessErr != "" {
 			res.HarnessErrs = append(res.HarnessErrs, out.HarnessErr)
@@ -231,6 +235,25 @@ func TestWorker(t *testing.T) {
 		maxViol := sp.MaxViol
 		if maxViol == 0 {
 			maxViol = 3
+		}
+		if sp.Prop == "C12" && sp.ID == 0 {
+			// the golden corpus is verified once per check invocation
+			g := goldenCheck(dir)
+			res.Evals += g.Evals
+			for k, v := range g.Probes {
+				res.Probes[k] += v
+			}
+			res.Distinct = append(res.Distinct, g.Distinct...)
+			if g.HarnessErr != "" {
+				res.HarnessErrs = append(res.HarnessErrs, g.HarnessErr)
+			}
+			for i, v := range g.Viol {
+				p := filepath.Join(sp.OutDir, fmt.Sprintf("viol-golden-%d.json", i))
+				gc := &Case{Prop: "C12", Engine: "golden", Violation: v}
+				_ = SaveCase(p, gc)
+				res.Violations = append(res.Violations, ViolRec{Prop: "C12", Class: "golden", Msg: v.Msg, Path: p})
+				break
+			}
 		}
 		for run := sp.First; ; run += sp.Stride {
 			if sp.MaxRuns > 0 && res.Runs >= sp.MaxRuns {
